@@ -58,11 +58,25 @@ def main(pid, tier, replay_path=None):
                     violations.append(vlib.save_replay(pid, '%s_%d' % (tier, len(violations)), {'property': pid, 'rule': v['rule'], 'line': v['line'], 'scenario': byid[v['scenario']], 'events': r['events'][max(0, v['line'] - 30):v['line'] + 2]}))
             closes = sum(1 for r in res.values() for e in r['events'] if e['e'] == 'FdClose')
             opens = sum(1 for r in res.values() for e in r['events'] if e['e'] == 'FdOpen')
+            # the dial retry after a TCP self-connect (private network namespace; skipped where unshare is not permitted): the discarded
+            # socket is a "descriptor of a failed dial" too
+            nself = 0
+            if not replay_path or progs[0].get('peer') == 'selfconnect':
+                import dial
+                if replay_path:
+                    progs = []
+                rself, sself = dial.selfconnect_runs(sc, binary, seed, 3 if tier == 'quick' else 40)
+                nself = len(rself)
+                for s0 in sself:
+                    census = [e for e in rself[s0['id']]['events'] if e['e'] == 'Census']
+                    if census and census[-1]['n'] > 0 and len(violations) < 6:
+                        vlib.log('violation C15.descriptor_left_open in %s: %d descriptor(s) opened by a dial that met itself and dialled again are still open' % (s0['id'], census[-1]['n']))
+                        violations.append(vlib.save_replay(pid, '%s_self%d' % (tier, len(violations)), {'property': pid, 'rule': 'C15.descriptor_left_open', 'scenario': s0, 'events': rself[s0['id']]['events'][:100]}))
             for p in progs[:2]:
                 r = res.get(p['id'])
                 if r:
                     samples.append({'program': p, 'events': ['%s:%s:%s' % (e['e'], e['k'], e['n']) for e in r['events'][:40]]})
-            cov = {'states': st.get('states', 1), 'transitions': st.get('transitions', 1), 'traces_validated_against_impl': len(res), 'samples': samples,
+            cov = {'self_connect_dials': nself, 'states': st.get('states', 1), 'transitions': st.get('transitions', 1), 'traces_validated_against_impl': len(res), 'samples': samples,
                    'opens_audited': opens, 'closes_audited': closes, 'programs': len(res), 'known_findings_matched': sorted(known_hit),
                    'spec_modules': vlib.spec_hashes(['FdTable.tla', 'TraceFd.tla']),
                    'explanation': 'concurrent lifecycles of listeners, event loops, dials (ok/refused/timed out/unix), NewFDConnection, Detach and pollers with a foreign '
